@@ -51,6 +51,7 @@ type Result struct {
 	KnownReplayed      map[string]string `json:"known_findings_replayed"` // finding id -> "reproduced" | "not-reproduced"
 	Notes              []string          `json:"notes,omitempty"`
 	Exhaustive         bool              `json:"exhaustive"`
+	NoModel            bool              `json:"no_model"` // the model driver was not available: disagreements are not recorded
 	seen               map[string]bool
 }
 
@@ -94,6 +95,9 @@ func (r *Result) Sample(v any, max int) {
 
 // Disagree records a correspondence failure (at most 20 are kept).
 func (r *Result) Disagree(d Disagreement) {
+	if r.NoModel {
+		return
+	}
 	r.mu.Lock()
 	if len(r.Disagreements) < 20 {
 		r.Disagreements = append(r.Disagreements, d)
